@@ -332,7 +332,13 @@ class EptMapResult:
                     b"".join(f.pack() for f in t),
                 ]
             )
-            padding = -(len(b_t)) % 4
+            if idx + 1 < len(self.towers):
+                # The next tower is a conformant NDR64 structure that starts
+                # on an 8 byte boundary, the same padding unpack() skips.
+                padding = -(len(b_t) + 4) % 8
+            else:
+                # The last tower is followed by the 4 byte aligned status.
+                padding = -(len(b_t)) % 4
             b_tower += b"".join(
                 [
                     len(b_t).to_bytes(8, byteorder="little"),
